@@ -41,6 +41,11 @@ func GenPlan(rng *rand.Rand, seed uint64, vt, txn bool) Plan {
 		p.ReadCommitted = true
 	}
 	if vt {
+		// No leader moves in virtual time: after NOT_LEADER with KIP-951 leader hints the fetch loop
+		// retries without a blocking point until a metadata refresh that is gated by a timer
+		// (MetadataMinAge); inside a bubble that timer can never fire while the loop spins, so the
+		// bubble live-locks (and leaks a goroutine per iteration). Real-time scenarios keep moves.
+		p.LeaderMoves = 0
 		p.Yield = 0
 		if p.Compression == "zstd" {
 			p.Compression = "lz4"
